@@ -55,9 +55,39 @@ func pureReplay(v *Violation) int {
 	return 0
 }
 
+// c15Jobs: the translation and the subscription in non-initial states (E2). A directory and entries of
+// it are watched with every pair of operation sets out of {each single portable operation, the default
+// set, Create|Remove, Write|Chmod}, requests are repeated with other sets, and each kind of change is made;
+// oracle: the sequential reference (every record the kernel produced for what was subscribed becomes its
+// documented operation) and "kernel mask = flags for everything requested for that watch".
+func c15Jobs(tier string) []Job {
+	sets := []string{"1", "2", "4", "8", "10", "1f", "5", "12"}
+	var hs [][]string
+	var vars []map[string]any
+	fsops := [][]string{
+		{"write w/d/a", "chmod w/d/a", "mv w/d/a w/d/c", "touch w/d/a", "rm w/d/c"},
+		{"rm w/d/a ;; touch w/d/a", "mv w/o/p w/d/p", "mv w/d/b w/o/b", "write w/d/p"},
+		{"mv w/d/s w/d/t", "touch w/d/t/y", "rmr w/d/t", "mkdir w/d/s"},
+	}
+	for _, P := range sets {
+		for _, Q := range sets {
+			for _, f := range fsops {
+				hs = append(hs, f)
+				vars = append(vars, map[string]any{"init": []string{"AW w/d " + P, "AW w/d/a " + Q, "AW w/d/s " + Q}})
+			}
+			if tier == "thorough" || P <= Q {
+				// repeated requests for one path (non-initial states of the subscription), then changes
+				hs = append(hs, []string{"AW w/d " + Q, "write w/d/a ;; chmod w/d/a", "AW w/d " + P, "touch w/d/n", "mv w/d/n w/d/n2", "rm w/d/n2", "R w/d", "AW w/d " + Q, "touch w/d/n ;; write w/d/n ;; rm w/d/n"})
+				vars = append(vars, map[string]any{"init": []string{"AW w/d " + P, "AW w/f " + Q}})
+			}
+		}
+	}
+	return chunk(map[string]any{"fix": "std", "tag15": "true"}, hs, vars, 8)
+}
+
 func init() {
-	Checks["C15"] = &CheckDef{Prop: "C15", Direct: pureDirect("C15"),
-		Technique: "exhaustive enumeration of the complete finite input domain of each translation table against an independent reference table (all 2^16 inotify masks, 2^11x2 kqueue fflags, 2^13 Windows masks, all actions, all 2^9 op subsets x follow/no-follow with the kernel-side mask read back from fdinfo)",
+	Checks["C15"] = &CheckDef{Prop: "C15", Direct: pureDirect("C15"), Jobs: c15Jobs,
+		Technique: "exhaustive enumeration of the complete finite input domain of each translation table against an independent reference table (all 2^16 inotify masks, 2^11x2 kqueue fflags, 2^13 Windows masks, all actions, all 2^9 op subsets x follow/no-follow with the kernel-side mask read back from fdinfo, every ordered triple of request sets for one path) plus E2 histories over watches with explicit operation sets in non-initial states",
 		Rule:      "E4: a state is one input (native mask / requested op set / action code); a transition is one evaluation of the real function (inotify: through the verif hook and a real AddWith on the real kernel; kqueue: the full transplant of that back end, verif/gen/kq; Windows, FEN: function source extracted from the working tree by vxgen)",
 		Assume:    []string{"kqueue/Windows constants taken from golang.org/x/sys v0.13.0", "reference tables written from the documentation of Op (fsnotify.go) and inotify(7)"}}
 	Checks["C16"] = &CheckDef{Prop: "C16", Direct: pureDirect("C16"),
